@@ -17,8 +17,8 @@ func genC05(r *Rng, n int, tier string, emit func(Case)) {
 		hs := hostileString(rr)
 		data := J{"h": hs, "num": rr.Range(-5, 900), "frac": 2.5, "t": true, "f": false, "z": nil,
 			"cls": []interface{}{"a", "b"}, "clsMixed": []interface{}{"x", false, nil, "y"}, "word": "w1",
-			"sp": J{"data-a": "1", "title": hs, "zz": "last", "aa": "first"},
-			"spBool": J{"hidden": true, "lang": "en", "required": false},
+			"sp":      J{"data-a": "1", "title": hs, "zz": "last", "aa": "first"},
+			"spBool":  J{"hidden": true, "lang": "en", "required": false},
 			"spClass": J{"class": "from-spread", "id": "i9"}}
 		k := rr.Range(0, 7)
 		var attrs []interface{}
